@@ -60,6 +60,24 @@ CHECKS["C10"] = dict(
     design="DESIGN.md §5 C10",
     technique="Coq proof (nested induction over chain dictionaries, cartesian-product lemmas) + differential correspondence")
 
+CHECKS["C11"] = dict(
+    text=("Theorems: decay-mode dict round trip returns bf, daughter multiset (and canonical list) and all metadata "
+          "(model_params None -> '' by design); final states: one canonical (sorted) order, insensitive to the order given "
+          "(any permutation), multiplicities counted, length = number of names, string constructor (names joined by blanks) "
+          "and mapping constructor agree with the list constructor. Unbounded. PARTIAL: the chain-level round trip "
+          "from_dict(to_dict(c)) (incl. repeated decaying particles, finding F4) is modelled (chain_to_dict/build_modes) and "
+          "tied by correspondence + round-trip oracle, but is not yet a theorem."),
+    design="DESIGN.md §5 C11",
+    technique="Coq proof (permutation/count_occ, sorting canonical form, str.split model) + differential correspondence")
+CHECKS["C13"] = dict(
+    text=("Theorems: to_string of a chain is the function `descr` of its single-mode dictionary — first pattern at the top, "
+          "second at every nested level, daughters sorted at each level; identical string for any order of daughters and "
+          "sub-decays (dictionary-level equivalence and chain-level); plain patterns render by substitution. Unbounded in "
+          "shape. PARTIAL: character-level read-back injectivity is not a theorem; an independent bracket-matching reader "
+          "checks it on every implementation string of the run."),
+    design="DESIGN.md §5 C13",
+    technique="Coq proof (nested induction, sorted-permutation canonicity) + differential correspondence + read-back reader")
+
 NOT_YET = {
 }
 
